@@ -98,7 +98,7 @@ class World:
         if act == 'logging':
             conn = self.conns[a['conn']]
             try:
-                rep = self.dispatcher.handle_request(conn, ('logging', a['target'], a['lvl']))
+                rep = self.dispatcher.handle_request(conn, ('logging', a['target'], a.get('wire', a['lvl'])))
                 obs['ok'] = rep[0] == 'logging'
             except Exception:  # the request handler turns any exception into an error reply
                 obs['ok'] = False
@@ -158,6 +158,12 @@ def _random_trace(seed_n):
         if r < 0.4 and alive:
             a = {'ev': 'logging', 'conn': rnd.choice(sorted(alive)), 'target': rnd.choice(MODS + ['.']),
                  'lvl': rnd.choice(list(LEVELNO) + ['off', 'off', 'bogus'])}
+            spell = rnd.random()      # the same level spelled in upper case or as its number
+            if spell < 0.15:
+                a['wire'] = a['lvl'].upper()
+            elif spell < 0.3:
+                from frappy.logging import LOG_LEVELS
+                a['wire'] = LOG_LEVELS.get(a['lvl'], 25)
         elif r < 0.85:
             a = {'ev': 'emit', 'mod': rnd.choice(MODS), 'lvl': rnd.choice(list(LEVELNO))}
         elif r < 0.95 and alive:
@@ -357,10 +363,16 @@ def run(chk):
                 'enabled subscription or a rollover that may delete')
     for m in ('Logging', 'LogRotation', 'Gen_Logging', 'Trace_Logging', 'Gen_LogRotation', 'Trace_LogRotation'):
         sany(m)
+    import time as _t
+    _t0 = _t.time()
+    stage = {}
     # 1 design check
     chk.add_tlc(model_check('Logging', 'MC_Logging_quick.cfg' if quick else 'MC_Logging_thorough.cfg', timeout=900))
+    if not quick:
+        chk.add_tlc(model_check('Logging', 'MC_Logging_levels.cfg', timeout=900))      # all six levels, two connections
     chk.add_tlc(model_check('LogRotation', 'MC_LogRotation.cfg', timeout=300))
 
+    stage['design'] = round(_t.time() - _t0, 1)
     # 2 spec -> code, routing
     r, behs = emit_behaviours('Gen_Logging', 'Gen_Logging_quick.cfg' if quick else 'Gen_Logging_thorough.cfg',
                               maximal_only=False, timeout=900)
@@ -389,6 +401,7 @@ def run(chk):
     if behs:
         chk.sample({'routing_behaviour': behs[len(behs) // 2]})
 
+    stage['replay'] = round(_t.time() - _t0, 1)
     # 3 code -> spec, routing
     n = 300 if quick else 3000
     traces = pool_map(_random_trace, [(chk.seed * 100003 + i, 40) for i in range(n)])
@@ -405,6 +418,7 @@ def run(chk):
                           {'trace': traces[i], 'failed_at': l, 'event': ev})
     chk.sample({'routing_trace_prefix': traces[0][:4]})
 
+    stage['random'] = round(_t.time() - _t0, 1)
     # 3b concurrent connections: requests in different threads, disconnect outside the dispatcher lock,
     #    every source line of logging.py / dispatcher.py a possible preemption point
     jobs = []
@@ -437,6 +451,7 @@ def run(chk):
                           {'conc': corigin[i][0], 'choices': corigin[i][1], 'trace': ctraces[i], 'failed_at': l})
     chk.notes['concurrent_schedules'] = len(ctraces)
 
+    stage['conc'] = round(_t.time() - _t0, 1)
     # 4 rotation: spec -> code cases, judged by the trace spec
     r, behs = emit_behaviours('Gen_LogRotation', 'Gen_LogRotation_quick.cfg' if quick else 'Gen_LogRotation_thorough.cfg',
                               maximal_only=False, timeout=600)
@@ -486,6 +501,8 @@ def run(chk):
                            'foreign_after': 'after' in c['foreign']},
                           {'case': c, 'trace': traces[i], 'failed_at': l})
     chk.sample({'rotation_trace': traces[len(traces) // 3]})
+    stage['rotation'] = round(_t.time() - _t0, 1)
+    chk.notes['wall_until_end_of_stage'] = stage
     chk.exhaustive = False
 
 
